@@ -11,11 +11,9 @@ pub struct Mut {
 
 impl Mut {
     pub(crate) fn string(&self, depth: u8) -> String {
-        format!(
-            "mut {} {}",
-            self.var_type,
-            self.variable.read().unwrap().debug(depth)
-        )
+        // the guard is released before rendering the content, which may contain this mut again
+        let variable = self.variable.read().unwrap().clone();
+        format!("mut {} {}", self.var_type, variable.debug(depth))
     }
 }
 
